@@ -144,11 +144,11 @@ def run(facts, rep, tier):
             a = facts.adts.get(adt)
             fty = [f["ty"] for f in a["variants"][0]["fields"] if f["name"] == fld][0]
             if fty.startswith("std::option::Option<"):
-                ok1, why1 = set_once(b, fl, fld, sites)
+                ok1, why1 = set_once(b, fl, fld, sites, facts)
                 fin = finalizers.get(adt)
                 ok2, why2 = (False, "no finalizer found for %s" % adt)
                 if fin:
-                    ok2, why2 = finalizer_requires(facts.bodies[fin], flow_of(fin), fld)
+                    ok2, why2 = finalizer_requires(facts.bodies[fin], flow_of(fin), fld, facts)
                 rep.ob("C11.G", name, ok1 and ok2,
                        "set-once setter of %s.%s: %s; %s" % (adt.split("::")[-1], fld, why1, why2), loc)
                 continue
@@ -164,10 +164,43 @@ def run(facts, rep, tier):
     rollback(facts, rep, flow_of)
 
 
-def set_once(b, fl, fld, sites):
-    """under 'current value of the field is Some' every borrow_mut is unreachable"""
-    removed = set()
-    found = False
+def _option_field_locals(b, fl, fld):
+    """locals that hold (a clone of / a reference to) the Option-typed field `fld` of a shared body"""
+    out = set()
+    for l in range(len(b.locals)):
+        ty = b.local_ty(l)
+        if not (ty.startswith("std::option::Option<") or ty.startswith("&std::option::Option<")):
+            continue
+        for di in fl.defs_of.get(l, []):
+            _, bb, j = fl.defs[di]
+            if bb < 0:
+                continue
+            if j is None:
+                t = b.term(bb)
+                if t["args"] and t["args"][0][0] != "k" and (callee_name(t) or "").endswith(("::clone", "::as_ref", "::take")):
+                    tr = fl.trail(t["args"][0][1])
+                    if tr and tr[-1] == fld:
+                        out.add(l)
+            else:
+                rv = b.stmts(bb)[j][2]
+                pl = rv[2] if rv[0] in ("ref", "raw") else (rv[1][1] if rv[0] == "use" and rv[1][0] != "k" else None)
+                if pl is not None:
+                    tr = fl.trail(pl)
+                    if tr and tr[-1] == fld and (len(pl) > 1 or pl[0] in out):
+                        out.add(l)
+    return out
+
+
+def _assume_option(facts, b, fl, fld, some):
+    """executable part of b assuming every read of the Option field `fld` yields Some(_) / None"""
+    from .. import vcai as V
+    val = ("enum", "std::option::Option", 1, "Some", (V.TOP,)) if some else ("enum", "std::option::Option", 0, "None", ())
+    locs = _option_field_locals(b, fl, fld)
+    forced = {l: val for l in locs}
+    res = V.executable_under(facts, b, forced=forced)
+    # direct discriminant reads of the field place (`match self.body.borrow().output_node { .. }`)
+    removed = {(x, y) for x, y in C.edges(b) if (x, y) not in res.edges}
+    found = bool(locs)
     for bb in range(b.nblocks()):
         if b.term(bb)["k"] != "switch" or b.is_cleanup(bb):
             continue
@@ -175,8 +208,14 @@ def set_once(b, fl, fld, sites):
         if src and src["kind"] == "discr" and src["adt"] == "std::option::Option":
             tr = fl.trail(src["place"])
             if tr and tr[-1] == fld:
-                removed |= C.variant_switch_removed(b, bb, 1)  # Some
+                removed |= C.variant_switch_removed(b, bb, 1 if some else 0)
                 found = True
+    return found, removed
+
+
+def set_once(b, fl, fld, sites, facts=None):
+    """under 'current value of the field is Some' every borrow_mut is unreachable"""
+    found, removed = _assume_option(facts, b, fl, fld, True)
     if not found:
         return False, "no test of the current value of `%s`" % fld
     reach = C.reachable(b, [0], removed_edges=removed)
@@ -184,18 +223,8 @@ def set_once(b, fl, fld, sites):
     return (not bad), ("write unreachable once `%s` is Some" % fld if not bad else "write at bb%s reachable although `%s` is already Some" % (bad, fld))
 
 
-def finalizer_requires(b, fl, fld):
-    removed = set()
-    found = False
-    for bb in range(b.nblocks()):
-        if b.term(bb)["k"] != "switch" or b.is_cleanup(bb):
-            continue
-        src = C.switch_source(b, bb)
-        if src and src["kind"] == "discr" and src["adt"] == "std::option::Option":
-            tr = fl.trail(src["place"])
-            if tr and tr[-1] == fld:
-                removed |= C.variant_switch_removed(b, bb, 0)  # None
-                found = True
+def finalizer_requires(b, fl, fld, facts=None):
+    found, removed = _assume_option(facts, b, fl, fld, False)
     if not found:
         return False, "finalizer %s does not test `%s`" % (b.id, fld)
     reach = C.reachable(b, [0], removed_edges=removed)
